@@ -99,7 +99,12 @@ func (group *Group) StartRtpPub(req base.ApiCtrlStartRtpPubReq) (ret base.ApiCtr
 	defer group.mutex.Unlock()
 
 	if group.hasInSession() {
-		// TODO(chef): [fix] 处理已经有输入session的情况 202207
+		// the stream already has an input: refuse, as every other kind of input is refused. nothing is created (no
+		// session, no socket, no second output pipeline next to the one of the accepted input)
+		Log.Errorf("[%s] in stream already exist at group. start rtp pub, exist=%s", group.UniqueKey, group.inSessionUniqueKey())
+		ret.ErrorCode = base.ErrorCodeStartRtpPubFail
+		ret.Desp = base.ErrDupInStream.Error()
+		return
 	}
 
 	if req.DebugDumpPacket != "" {
